@@ -19,8 +19,8 @@ PROPS = {
                    "at zero; regret() combines them with the right strategies, signs and clamps. Accessors (negated utility, max of "
                    "regrets) are loop-free Kani proofs over all f64. Partial: see level_note.",
         level_note="Assumes wf_game from from_root, idealised-real arithmetic, termination unproved. NOT proved: the seeding of "
-                   "optimal_deviations' resolution queue and the global order / work-list arguments (both passes are under per-step contracts only); a bounded "
-                   "Kani harness on one concrete tree exists in the thorough tier only (tree walkers exhaust CBMC).",
+                   "optimal_deviations' resolution queue and the global order / work-list arguments (both passes are under per-step contracts only); bounded "
+                   "Kani harnesses on concrete 6-7 node trees were tried and did not finish (15 min - 1 h): not run.",
         verus=[
             U("c01_expected", ["C01.V.expected.value"]),
             U("c01_next_infoset_search", ["C01.V.next_infoset_search.value", "C01.V.next_infoset_search.queue_empty"]),
@@ -82,10 +82,10 @@ PROPS = {
                U("c06_threshold_player_step", ["C06.V.thread_threshold.frontier_reach"]),
                U("c08_chance_reach", ["C08.V.chance_reach.product_along_path (recurse_multi passes the same reaches as recurse_single)"]),
                U("c08_advance_order", ["C08.V.advance.order: MutexRegretInfoset::advance obeys the same contract as the single-threaded RegretInfoset::advance"])],
-        kani_functions=["src/solve/vanilla.rs :: fn thread_threshold (thorough tier only)"],
+        
         trusted_base=["assumed contracts on thread_threshold and rayon (prelude/workspace.rs)"],
         not_decided=["races between worker tasks, atomic add ordering, equality up to summation order",
-                     "thread_threshold's reach products (a bounded Kani harness exists in the thorough tier only)"],
+                     "thread_threshold's chance-node arm (Vec::extend over a Map iterator)"],
     ),
     "C07": dict(
         level="proof",
